@@ -798,3 +798,43 @@ def check_listing_bytes_paired(db, rep, rule):
               "listing contains an instruction the machine code lacks, and all later instruction indexes and branch targets differ" %
               (describe_path(f, w) if w else "", "; helper(s) %s can return without reaching orc_x86_insn_output_opcode" % helpers if helpers else ""), line=asm[0].line)
     return 1
+
+
+def check_rel8_predicates(db, rep, rule):
+    """Whether a branch displacement fits the one-byte form is decided by predicates over the int displacement (`diff !=
+    (orc_int8) diff`, `diff < -128 || diff > 127`, ...).  Each such predicate must be EXACTLY "diff in [-128, 127]" or its
+    complement: one value off and a jump of that length is kept short and wraps round (a forward jump of 128 becomes -128), or a
+    short jump is needlessly refused.  Decided by finite evaluation of every if-condition over a single int local that is true
+    on (nearly) that interval or its complement."""
+    from exprval import NotPure, evaluate, variables
+    n = 0
+    for tub in ("orcx86", "orcx86insn"):
+        for f in db.tu(tub).main_functions():
+            for st in f.walk():
+                if st.k != "IfStmt" or st.c[0] is None:
+                    continue
+                cond = st.c[0]
+                vs = variables(cond)
+                if len(vs) != 1:
+                    continue
+                v = next(iter(vs))
+                if "->" in v or "." in v or "[" in v:
+                    continue
+                try:
+                    tv = [bool(evaluate(cond, {v: x})) for x in range(-400, 401)]
+                except (NotPure, ValueError, ZeroDivisionError):
+                    continue
+                exact = [(-128 <= x <= 127) for x in range(-400, 401)]
+                d1 = sum(1 for a_, b_ in zip(tv, exact) if a_ != b_)
+                d2 = sum(1 for a_, b_ in zip(tv, exact) if a_ == b_)
+                if min(d1, d2) > 4:
+                    continue                        # some other predicate
+                n += 1
+                rep.saw(f)
+                off = [x for x, a_, b_ in zip(range(-400, 401), tv, exact) if (a_ != b_) == (d1 <= d2)]
+                rep.check(min(d1, d2) == 0, rule, "%s::%s" % (f.relfile, f.name), "rel8:%s@%s" % (v, st.line),
+                          "`%s` is exactly the test for a displacement that fits one signed byte" % unparse(cond)[:60],
+                          "`%s` in %s is meant to decide whether %s fits a one-byte branch displacement but gives the wrong answer for %s: a jump of that "
+                          "length is encoded short and the byte wraps round (the branch goes 256 bytes elsewhere), or is refused although it fits" %
+                          (unparse(cond)[:70], f.name, v, off[:4]), line=st.line)
+    return n
